@@ -33,6 +33,7 @@ func init() {
 			"tolerance 4 eps (n+1) (range + max|x|): the estimate is continuous in h, so a 1-ulp error in h near a break point is harmless",
 			"weighted: when q*W is within 1e-12 relative of a cumulative weight either neighbour is accepted; equal x values are grouped",
 			"Sorted is only set on ascending data; q finite",
+			"between two equal neighbouring order statistics (ties, constant samples) the estimate must be that value exactly: there is nothing to interpolate, and 'bounded' leaves no room when min = max",
 		},
 	})
 }
